@@ -93,13 +93,16 @@ Fixpoint dictval_str (d : sexpr) : string :=
   end.
 
 Definition item_name (depth : nat) : string := "_item" ++ z_to_string (Z.of_nat depth).
+(* arguments.py (since /repo 6bef770): the comprehension variable steps aside when the serialize function has its name *)
+Definition item_for (f : string) (depth : nat) : string :=
+  if String.eqb (item_name depth) f then item_name depth ++ "_" else item_name depth.
 
 (* _generate_serialize_expr(node, value, serialize_name, nullable, depth): the value is always a name *)
 Fixpoint gen_se (t : gtype) (x f : string) (nullable : bool) (depth : nat) : sexpr :=
   match t with
   | TNonNull t' => gen_se t' x f false depth
   | TList t' =>
-      let e := EComp (item_name depth) (gen_se t' (item_name depth) f true (Datatypes.S depth)) x in
+      let e := EComp (item_for f depth) (gen_se t' (item_for f depth) f true (Datatypes.S depth)) x in
       if nullable then EGuard (Nat.eqb depth 0) x e else e
   | TNamed _ =>
       let e := ECall f x in
@@ -110,7 +113,10 @@ Record param := { p_name : string; p_ann : ann; p_required : bool }.
 
 Definition arg_flags (snake : bool) : pflags := {| f_snake := snake; f_trim := false; f_reserved := false |}.
 (* process_name of the variable name (before the clash handling) *)
-Definition base_name (snake : bool) (s : string) : string := l2s (process_name (arg_flags snake) (s2l s)).
+(* since /repo 70630f0: a mangled name that is no identifier (snake-casing _1 gives 1) gets an underscore back *)
+Definition base_name (snake : bool) (s : string) : string :=
+  let p := process_name (arg_flags snake) (s2l s) in
+  if py_identifier p then l2s p else "_" ++ l2s p.
 
 (* `while name in used_names: name += "_"` (since /repo 7f3b78b).  The loop ends after at most
    |used|+1 rounds; [n] is that bound (the result for n = S (length used) is proved free in ArgsP). *)
@@ -202,13 +208,19 @@ Fixpoint fresh_local (n : nat) (argnames : list string) (v : string) : string :=
 Definition local_name (argnames : list string) (v : string) : string :=
   fresh_local (Datatypes.S (List.length argnames)) argnames v.
 
-Definition variable_names (g : generated) : list string :=
-  let names := "self" :: map p_name (g_params g) in
+(* names the method body CALLS: a local steps aside for them too (since /repo 6bef770) *)
+Definition called_names (S : schema) : list string :=
+  "gql" :: flat_map (fun d => match snd d with
+                              | DCustom (Some c) => match sc_ser c with Some f => [object_name f] | None => [] end
+                              | _ => [] end) S.
+
+Definition variable_names (S : schema) (g : generated) : list string :=
+  let names := app ("self" :: map p_name (g_params g)) (called_names S) in
   map (local_name names) ["query"; "variables"; "response"; "data"].
 
 (* ---- sexp ---- *)
 Definition sParam (p : param) : sexp := L [A (p_name p); A (ann_str (p_ann p)); sB (p_required p)].
-Definition sGenerated (g : generated) : sexp :=
+Definition sGenerated (S : schema) (g : generated) : sexp :=
   L [L (map sParam (g_params g));
      L (map (fun e => L [A (fst e); A (dictval_str (snd e))]) (g_dict g));
-     L (map A (variable_names g))].
+     L (map A (variable_names S g))].
